@@ -120,16 +120,16 @@ theorem retained_formula {c : Cmp α} {S : List α → Prop} {s : Sketch α} (h 
 /-! ### exact mode -/
 
 theorem qgo_exact (w : Nat) (incl : Bool) : ∀ (l : List α) (acc : Nat) (last : Option α),
-    SortedView.quantileAt.go w incl (cumulate acc (l.map (fun x => (x, 1)))) last =
+    SortedView.quantGo w incl (cumulate acc (l.map (fun x => (x, 1)))) last =
       match l[(if incl then w - 1 else w) - acc]? with
       | some x => some x
       | none => (l.getLast?).or last := by
   intro l
   induction l with
-  | nil => intro acc last; simp [cumulate, SortedView.quantileAt.go]
+  | nil => intro acc last; simp [cumulate, SortedView.quantGo]
   | cons x t ih =>
     intro acc last
-    simp only [List.map_cons, cumulate, SortedView.quantileAt.go]
+    simp only [List.map_cons, cumulate, SortedView.quantGo]
     have hlast : (t.getLast?).or (some x) = ((x :: t).getLast?).or last := by
       rw [List.getLast?_cons]
       cases t.getLast? <;> simp
